@@ -19,6 +19,17 @@ Theorem C27_events_exact_partial : forall c env req,
 Proof. exact events_exact_partial. Qed.
 Print Assumptions C27_events_exact_partial.
 
+(* the same across schema changes: a program is a sequence of phases (column names, requests); the marker
+   Schema env in the trace stands where ColumnNames starts to answer env, which on the pinned tree is the first
+   statement stepped by the pooled read connection after the schema change - the commits between the change
+   and that point (at most one per pooled read connection) are outside this statement (known finding
+   C27:stale-column-names-first-commit-after-schema-change) *)
+Theorem C27_events_exact_partial_across_schema_changes : forall c env0 ps,
+  (forall env reqs req, In (env, reqs) ps -> In req reqs -> wf env req /\ no_undone_statement_in_committed req) ->
+  deliver c env0 (trace_of_phases ps) = expected_phases c ps.
+Proof. exact events_exact_partial_phases. Qed.
+Print Assumptions C27_events_exact_partial_across_schema_changes.
+
 (* events_exact at full strength is false: a statement undone inside an explicit transaction that
    later commits is reported *)
 Theorem C27_events_exact_refuted :
